@@ -181,8 +181,8 @@ pub fn spec() -> PropSpec {
             "known finding D11 (shared reassembly buffer) is keyed on: everything completed before the first overlap point is delivered correctly, the divergence comes at or after it",
         ],
         checks: vec![
-            PropCheck::new("interleaved", |_| case_strategy(false), 4_000, 150_000, eval),
-            PropCheck::new("overlap-free", |_| case_strategy(true), 4_000, 150_000, eval),
+            PropCheck::new("interleaved", |_| case_strategy(false), 60_000, 1_500_000, eval),
+            PropCheck::new("overlap-free", |_| case_strategy(true), 60_000, 1_500_000, eval),
         ],
     }
 }
